@@ -23,6 +23,15 @@ impl<K: PartialEq, V> VecMap<K, V> {
     pub fn remove(&mut self, k: &K) -> Option<V> {
         match self.pos(k) { Some(i) => Some(self.items.swap_remove(i).1), None => None }
     }
+    pub fn get(&self, k: &K) -> Option<&V> {
+        match self.pos(k) { Some(i) => Some(&self.items[i].1), None => None }
+    }
+    pub fn is_empty(&self) -> bool { self.items.is_empty() }
+    pub fn clear(&mut self) { self.items.clear() }
+    pub fn iter(&self) -> impl Iterator<Item = (&K, &V)> { self.items.iter().map(|(k, v)| (k, v)) }
+    pub fn keys(&self) -> impl Iterator<Item = &K> { self.items.iter().map(|(k, _)| k) }
+    pub fn values(&self) -> impl Iterator<Item = &V> { self.items.iter().map(|(_, v)| v) }
+    pub fn retain<F: FnMut(&K, &mut V) -> bool>(&mut self, mut f: F) { self.items.retain_mut(|(k, v)| f(k, v)) }
 }
 #[derive(Debug)]
 pub struct VecSet<K> { m: VecMap<K, ()> }
@@ -33,4 +42,7 @@ impl<K: PartialEq> VecSet<K> {
     pub fn remove(&mut self, k: &K) -> bool { self.m.remove(k).is_some() }
     pub fn contains(&self, k: &K) -> bool { self.m.contains_key(k) }
     pub fn len(&self) -> usize { self.m.len() }
+    pub fn is_empty(&self) -> bool { self.m.is_empty() }
+    pub fn clear(&mut self) { self.m.clear() }
+    pub fn iter(&self) -> impl Iterator<Item = &K> { self.m.keys() }
 }
